@@ -623,7 +623,10 @@ def mixed_use_cases(draw, tier):
     dense = draw(st.booleans())
     base = DENSE_PAST if dense else DT_PAST
     f, vs = draw(F.formulas(base))
-    c = {'kind': 'ct' if dense else 'dt', 'formula': f, 'vars': vs, 'first': draw(st.sampled_from(['evaluate', 'update']))}
+    # interleaved: the first part of the input online, then evaluate() on the whole data, then the rest online (dense time: a
+    # variable without further samples is left out of the second update)
+    c = {'kind': 'ct' if dense else 'dt', 'formula': f, 'vars': vs, 'first': draw(st.sampled_from(['evaluate', 'update', 'interleaved', 'interleaved'])),
+         'cut': draw(st.sampled_from([0, 1, 2, 3, 5, 8]))}
     if dense:
         c['signals'] = {v: draw(grid_signal(0, max_samples=4)) for v in vs}
     else:
@@ -650,11 +653,29 @@ def check_mixed_use(case):
         n = len(data[vs[0]])
         return spec.evaluate(dict([('time', [float(i) for i in range(n)])] + [(v, list(data[v])) for v in vs]))
 
-    def online(spec):
+    inter = case['first'] == 'interleaved'
+    cut = case.get('cut', 1)
+
+    def online(spec, between=None):
         if dense:
             sig = to_time({v: data[v] for v in vs}, Q)
-            return [spec.update(*[[v, sig[v]] for v in vs])]
-        return [spec.update(i, [(v, data[v][i]) for v in vs]) for i in range(len(data[vs[0]]))]
+            if not inter:
+                return [spec.update(*[[v, sig[v]] for v in vs])]
+            tc = float(cut * Q)
+            outs = [spec.update(*[[v, [list(p) for p in sig[v] if p[0] <= tc]] for v in vs])]
+            if between:
+                between()
+            rest = [[v, [list(p) for p in sig[v] if p[0] > tc]] for v in vs]
+            if any(b for _v, b in rest):
+                outs.append(spec.update(*[[v, b] for v, b in rest if b]))
+            return outs
+        n = len(data[vs[0]])
+        outs = []
+        for i in range(n):
+            if inter and between and i == min(cut, n - 1):
+                between()
+            outs.append(spec.update(i, [(v, data[v][i]) for v in vs]))
+        return outs
     try:
         want_off = offline(build('ct' if dense else 'dt', text, vs))
         want_on = online(build('ct' if dense else 'dt', text, vs))
@@ -663,7 +684,11 @@ def check_mixed_use(case):
     desc = 'combined class, %s first\nspec: %s\ndata: %s' % (case['first'], text, {v: data[v] for v in vs})
     try:
         spec = build('ct' if dense else 'dt', text, vs)
-        if case['first'] == 'evaluate':
+        if inter:
+            box = []
+            got_on = online(spec, lambda: box.append(offline(spec)))
+            got_off = box[0] if box else want_off
+        elif case['first'] == 'evaluate':
             got_off, got_on = offline(spec), online(spec)
         else:
             got_on, got_off = online(spec), offline(spec)
